@@ -173,6 +173,12 @@ pub fn junk_menu() -> Vec<Vec<u8>> {
             z.extend_from_slice(b"--");
             z
         },
+        // 23: the file begins like a PNG (signature + IHDR); whatever wrapper follows sits inside a "PNG file"
+        {
+            let mut z = PNG_SIG.to_vec();
+            z.extend_from_slice(&png_ihdr());
+            z
+        },
     ]
 }
 
@@ -338,7 +344,7 @@ pub fn wrapper_menu(full: bool) -> Vec<Wrapper> {
         });
     }
     // IDAT payloads whose zlib header announces a window below 32K (libpng writes these for small images)
-    for h in [[0x58u8, 0x85], [0x48, 0x89], [0x68, 0x81], [0x08, 0x1d], [0x78, 0x01]] {
+    for h in [[0x58u8, 0x85], [0x48, 0x89], [0x68, 0x81], [0x08, 0x1d], [0x78, 0x01], [0x78, 0x20], [0x78, 0xbb]] {
         v.push(Wrapper {
             kind: WKind::Png,
             descr: format!("png IDAT zlib header {:02x}{:02x}", h[0], h[1]),
